@@ -199,10 +199,7 @@ Proof.
     + intros s1 c Hs Hc. sset Hs. destruct (Icl s0 c eq_refl Hc) as [A [B C]]. auto.
   - (* found *)
     assert ((h <=? cu) = true) as Hb by (apply N.leb_le; lia). rewrite Hb in V.
-    destruct V as [Vp [s1 [Hs1 Hne]]]. sset Hs1.
-    assert (Hall : forall c, In c (cs_ntfns s1) -> c_disp c = false).
-    { intros c Hc. apply (Icl s1 c eq_refl Hc). exact Hd0. }
-    rewrite (existsb_di cu lim h b _ Hne Hall).
+    rename V into Vp.
     constructor; simpl.
     + exact Ichain.
     + exact Iuniq.
@@ -212,13 +209,15 @@ Proof.
     + intros s2 Hs Hd. sset Hs. discriminate.
     + intros s2 h1 b1 Hs Hd Hlt. sset Hs. inversion Hd; subst.
       assert ((cu <? h1 + lim) = true) as -> by (apply N.ltb_lt; lia). simpl. auto.
-    + intros x Hx. destruct (cu <? h + lim); [|destruct Hx]. simpl in Hx. destruct Hx as [<-|[]].
-      split; auto. eexists _, b. split; reflexivity.
+    + intros x Hx.
+      match type of Hx with In _ (if ?bb then _ else _) => destruct bb end; [|destruct Hx].
+      simpl in Hx. destruct Hx as [<-|[]].
+      split; [reflexivity|]. eexists _, b. split; reflexivity.
     + intros x h1 b1 Hx Hp. inversion Hx; subst. rewrite Vp in Hp. inversion Hp; subst. lia.
     + intros s2 Hs. sset Hs. rewrite map_id_map; eauto. intros c. apply dispatch1_spec.
     + intros s2 c Hs Hc. sset Hs. apply in_map_iff in Hc. destruct Hc as [c0 [<- Hc0]].
       destruct (dispatch1_spec cu lim h b c0) as [A [B _]]. rewrite A, B.
-      destruct (Icl s1 c0 eq_refl Hc0) as [X [Y _]]. repeat split; auto; try lia. discriminate.
+      destruct (Icl s0 c0 eq_refl Hc0) as [X [Y _]]. repeat split; auto; try lia. discriminate.
 Qed.
 
 Lemma cinva_notify ch cu rd lim nid s ini q hn pend high log st' r ev :
